@@ -25,6 +25,7 @@ struct Problem
   double noise = 0;                // sigma (absolute)
   double precond = 0;              // 0: none, else isotropic scale applied to both sets
   bool aligned = false;            // use the aligned overload (identity correspondences over all stored points)
+  bool reusedSets = false;         // the PreconditionedPointSet objects held a larger, unrelated set before
   int cloudMode = 0;
   double spread2 = 1, spread3 = 1; // s2/s1, s3/s1 of the centred used source points
 };
@@ -202,7 +203,24 @@ MatrixXd runLibrary(const Problem & pb)
   FindRigidTransformationBySVD<PT> est;
   typename FindRigidTransformationBySVD<PT>::TransformationMatrixType H;
   if (pb.precond != 0) {
-    PreconditionedPointSet<PT> ps(src, static_cast<S>(pb.precond)), pt(tgt, static_cast<S>(pb.precond));
+    PreconditionedPointSet<PT> ps, pt;
+    if (pb.reusedSets) {
+      // as the RANSAC model does between ICP iterations: the same preconditioned-set objects are recomputed for a
+      // new (here smaller) set; nothing of the previous content or preconditioning may survive
+      PointSet<PT> big;
+      for (size_t k = 0; k < 2 * src.size() + 5; ++k) {
+        PT q = PT::Zero();
+        for (int d = 0; d < DIM; ++d) {q[d] = static_cast<S>(1e3 * pb.size * (1 + static_cast<double>((k * 7 + d) % 13)));}
+        if (SIZE > DIM) {q[SIZE - 1] = S(1);}
+        big.push_back(q);
+      }
+      typename PreconditionedPointSet<PT>::TranslationVector tv;
+      tv.setConstant(static_cast<S>(3.5));
+      ps.compute(big, static_cast<S>(0.125), tv);
+      pt.compute(big, static_cast<S>(0.125), tv);
+    }
+    ps.compute(src, static_cast<S>(pb.precond));
+    pt.compute(tgt, static_cast<S>(pb.precond));
     H = pb.aligned ? est.find(ps, pt) : est.find(ps, pt, corr);
   } else {
     H = pb.aligned ? est.find(src, tgt) : est.find(src, tgt, corr);
@@ -305,6 +323,8 @@ void svdBody(vf::Ctx & c)
   Problem pb = genProblem(c, D);
   int type = static_cast<int>(c.s.i("point_type", 0, 3));
   c.label(typeName(D, type));
+  pb.reusedSets = c.s.flag("preconditioned_sets_reused");
+  if (pb.reusedSets && pb.precond != 0) {c.label("preconditioned-set-objects-reused");}
   c.commit();
 
   MatrixXd Rref;
